@@ -179,7 +179,7 @@ def natoms(name):
     return len(_proto(name)[1])
 
 
-def make(name, order="asis", order_seed=0, int_shift=False, edge=False, rot_seed=None, ext_symbols=False, scale=1.0, decimals=None):
+def make(name, order="asis", order_seed=0, int_shift=False, edge=False, rot_seed=None, ext_symbols=False, scale=1.0, decimals=None, isotope_seed=None):
     """Build the prototype and apply harmless re-descriptions of the same crystal."""
     L, pos, sym, pmat, system, mag = _proto(name)
     L = np.array(L, float) * scale
@@ -228,8 +228,16 @@ def make(name, order="asis", order_seed=0, int_shift=False, edge=False, rot_seed
         # the structure as read from a file written with a few decimals (lattice and positions rounded): symmetric only within ~10^-decimals
         L = np.round(L, int(decimals))
         pos = np.round(pos, int(decimals))
-    return {"name": name, "cell": L.tolist(), "positions": pos.tolist(), "symbols": sym, "magmoms": mag,
-            "pmat": pmat, "system": system}
+    out = {"name": name, "cell": L.tolist(), "positions": pos.tolist(), "symbols": sym, "magmoms": mag,
+           "pmat": pmat, "system": system}
+    if isotope_seed is not None:
+        # explicit masses that differ between atoms carrying the SAME symbol (isotope substitution on single sites): per-atom attributes
+        # must travel with the atom, not with its symbol
+        from phonopy.structure.atoms import atom_data, symbol_map
+
+        rng = np.random.default_rng([isotope_seed, 80])
+        out["masses"] = [float(atom_data[symbol_map["".join(ch for ch in s_ if ch.isalpha())]][3] * (1 + 0.01 * rng.integers(0, 9))) for s_ in sym]
+    return out
 
 
 def to_atoms(d, masses=None):
@@ -238,6 +246,8 @@ def to_atoms(d, masses=None):
     kw = {}
     if d.get("magmoms") is not None:
         kw["magnetic_moments"] = d["magmoms"]
+    if masses is None and d.get("masses") is not None:
+        masses = d["masses"]
     if masses is None and any(not s.isalpha() for s in d["symbols"]):
         from phonopy.structure.atoms import atom_data, symbol_map
 
